@@ -419,7 +419,7 @@ func RunCheck(opts CheckOpts) *CheckReport {
 				nProbeOK++
 				continue
 			}
-			if strings.Contains(r.O.Short, "cover.fails") && r.Ans.Result == "unsat" {
+			if (strings.Contains(r.O.Short, "cover.fails") || strings.Contains(r.O.Short, "cover.post")) && r.Ans.Result == "unsat" {
 				dead = append(dead, r.O.Name)
 				continue
 			}
